@@ -340,7 +340,10 @@ def c07_s(draw, pid, tier, opts=None):
     kinds = ep.expand(prof)          # includes re-announcement of the client's own id
     rk = ep.REPLY_KINDS["default"]
     scripts = []
-    ids = draw(st.lists(st.integers(1, 60), min_size=k, max_size=k, unique=True))
+    if draw(st.integers(0, 6)) == 0:
+        ids = draw(st.lists(st.sampled_from(ep.EXTREME_IDS), min_size=k, max_size=k, unique=True))
+    else:
+        ids = draw(st.lists(st.integers(1, 60), min_size=k, max_size=k, unique=True))
     for cid in ids:
         sc = [["C", cid, draw(st.sampled_from(ep.IPS)), draw(st.integers(1, 65535))]]
         for _ in range(draw(st.integers(0, 10))):
@@ -804,6 +807,14 @@ def c11_s(draw, pid, tier, opts=None):
             else:
                 replies.append(["X", cid, "comb.ex", cb, "cur"])
         sc.extend(draw(st.permutations(replies)))
+        if acct is not None and draw(st.integers(0, 3)) == 0:
+            # a second login round (e.g. after another service said AGAIN): services that already said OK are asked
+            # again and may stay silent until the request times out - what they said before still counts
+            sc.append(["P", cid, "+x %s pw2" % acct])
+            again = [r for r in replies if r[0] == "X" and draw(st.booleans())]
+            sc.extend([list(r) for r in again])
+            if timeout and len(again) < len(replies):
+                silent = True
         if silent:
             sc.append(["!", cid])
         events.append(sc)
